@@ -1102,7 +1102,9 @@ func (p *parser) tryIdentOrType() ast.Expr {
 	switch p.tok {
 	case token.IDENT:
 		typ := p.parseTypeName()
-		if p.tok == token.LBRACK {
+		// In WaGo syntax a parameter or field name is followed directly by its type:
+		// `s []T`, `a [2]T`. That is not a generic instantiation.
+		if p.tok == token.LBRACK && !p.wagoMode {
 			typ = p.parseTypeInstance(typ)
 		}
 		return typ
